@@ -160,6 +160,37 @@ class A(object):
 obj = A()
 shared = [A.__dict__['m'], obj]
 ''', [('inspect-attr', 'obj.m'), ('sigtools-attr', 'obj.m')]),
+    # the bound wrapper of the first thread is dropped (and collected: it sits in a reference cycle) by the
+    # third thread while the second is in the middle of looking the same method up
+    'S8-descriptor-cache-entry-collected-meanwhile': ('''
+import gc
+gc.disable()     # collections happen where the third thread asks for one, nowhere else (re-enabled by the explorer)
+class A(object):
+    @modifiers.kwoargs('b')
+    def m(self, a, b=2, *args, **kwargs): return inner(*args, **kwargs)
+obj = A()
+hold = []
+def reset():
+    hold.clear()
+    gc.collect()
+shared = [A.__dict__['m'], obj]
+''', [('exec', 'hold.append(obj.m)'), ('sigtools-attr', 'obj.m'), ('exec', 'hold.clear() or gc.collect()')]),
+    # the very first lookups of a forged special method (Python converts its function implicitly in a class
+    # body): every schedule starts from freshly built classes
+    'S9-first-lookups-of-forged-class-getitem': ('''
+class K(object):
+    @specifiers.forwards_to_function(inner, emulate=True)
+    def __class_getitem__(cls, a, *args, **kwargs): return inner(*args, **kwargs)
+shared = [K.__dict__['__class_getitem__']]
+''', [('inspect-attr', 'K.__class_getitem__'), ('sigtools-attr', 'K.__class_getitem__')], {'fresh': True}),
+    'S9b-first-lookups-of-forged-new': ('''
+class K(object):
+    @specifiers.forwards_to_function(inner, emulate=True)
+    def __new__(cls, a, *args, **kwargs): return object.__new__(cls)
+    def __init__(self, *args, **kwargs): pass
+k = object.__new__(K)
+shared = [K.__dict__['__new__']]
+''', [('inspect-attr', 'k.__new__'), ('inspect-attr', 'K.__new__')], {'fresh': True}),
     'S7-three-threads-on-wraps': ('f = deco(inner)\nshared = [f]', [('sigtools', 'f'), ('inspect', 'f'), ('sigtools', 'f')]),
     'S7b-three-threads-mixed': ('''
 g = deco(inner)
@@ -173,9 +204,13 @@ shared = [f, g, h]
 
 
 def build(name):
-    src, ops = SCENARIOS[name]
+    src, ops = SCENARIOS[name][:2]
     g = sigs.compile_module(PRELUDE + src, tag='vsched')
     return g, ops
+
+
+def is_fresh(name):
+    return len(SCENARIOS[name]) > 2 and SCENARIOS[name][2].get('fresh', False)
 
 
 def make_op(g, how, expr):
@@ -187,6 +222,8 @@ def make_op(g, how, expr):
         obj = eval(expr, g)
         return lambda: inspect.signature(obj)
     code = compile(expr, '<op>', 'eval')
+    if how == 'exec':
+        return lambda: (eval(code, g), None)[1]
     if how == 'sigtools-attr':
         return lambda: sigtools.signature(eval(code, g))
     return lambda: inspect.signature(eval(code, g))
@@ -288,6 +325,9 @@ def solo_profile(g, ops_spec, initial):
     answers, counts, windows = [], [], []
     for how, expr in ops_spec:
         op = make_op(g, how, expr)
+        res = None
+        if 'reset' in g:
+            g['reset']()
         win = set()
         def probe(t, step, code, line, _win=win):
             if transient(g, initial):
@@ -302,17 +342,36 @@ def solo_profile(g, ops_spec, initial):
     return answers, counts, windows
 
 
+def solo_profile_fresh(name, ops_spec):
+    """Like solo_profile, but every operation runs alone on freshly built objects (scenarios whose
+    first access differs from all later ones)."""
+    answers, counts, windows = [], [], []
+    for k, (how, expr) in enumerate(ops_spec):
+        g, _ = build(name)
+        op = make_op(g, how, expr)
+        res, steps, hung = SCHED.run([op], {})
+        answers.append(render(res[0]))
+        counts.append(steps[0])
+        windows.append([])
+    return answers, counts, windows
+
+
 def explore(ctx, name, tier):
     g, ops_spec = build(name)
     SCHED.install()
     n = len(ops_spec)
     ops = [make_op(g, how, expr) for how, expr in ops_spec]
+    fresh = is_fresh(name)
     # warm up (linecache, lazy imports), then profile
     for op in ops:
         outcome(op)
     initial = shared_snapshot(g)
-    answers, counts, windows = solo_profile(g, ops_spec, initial)
-    answers2, counts2, _ = solo_profile(g, ops_spec, initial)
+    if fresh:
+        answers, counts, windows = solo_profile_fresh(name, ops_spec)
+        answers2, counts2, _ = solo_profile_fresh(name, ops_spec)
+    else:
+        answers, counts, windows = solo_profile(g, ops_spec, initial)
+        answers2, counts2, _ = solo_profile(g, ops_spec, initial)
     if answers != answers2 or counts != counts2:
         ctx.count('C17.unstable_scenarios')
         ctx.inconclusive.append('scenario %s is not deterministic when run alone' % name)
@@ -369,6 +428,10 @@ def explore(ctx, name, tier):
             continue
         if ctx.out_of_time('schedules of ' + name):
             break
+        if fresh:
+            g, _ = build(name)
+            ops = [make_op(g, how, expr) for how, expr in ops_spec]
+            initial = shared_snapshot(g)
         run_schedule(ctx, name, g, ops, ops_spec, plan, answers, initial, pred, pairs_seen)
     if tier == 'thorough' and not ctx.out_of_time():
         ctx.exhaustive['%s: every one-preemption schedule' % name] = True
@@ -378,6 +441,8 @@ def run_schedule(ctx, name, g, ops, ops_spec, plan, answers, initial, pred, pair
     exposed = []
     def probe(t, step, code, line):
         pass
+    if 'reset' in g:
+        g['reset']()
     results, steps, hung = SCHED.run(ops, plan)
     ctx.evaluated()
     ctx.count('C17.schedules')
@@ -417,7 +482,16 @@ def run_schedule(ctx, name, g, ops, ops_spec, plan, answers, initial, pred, pair
                               'a concurrent retrieval returned something else than when run alone',
                               dict(w, thread=t, got=got[:300], sequential=want[:300]), rp)
     after = shared_snapshot(g)
-    if after != initial:
+    if is_fresh(name):
+        # the first access legitimately transforms the object once: what must agree with a sequential
+        # run on fresh objects is which attributes exist at quiescence (nothing lost for good)
+        want_names = fresh_quiescent_names(name, ops_spec)
+        got_names = [sorted(w_fault._own_attrs(o)) for o in g['shared']]
+        if got_names != want_names:
+            ctx.violation('C17', 'ConcurrencyBoundary', 'state-changed-at-quiescence',
+                          'after all threads finished the shared objects do not have the attributes they have after a sequential run',
+                          dict(w, attributes=got_names, sequential=want_names), rp)
+    elif after != initial:
         problems = []
         for a, b in zip(initial, after):
             problems += w_fault.diff_snapshots(a, b)
@@ -428,6 +502,18 @@ def run_schedule(ctx, name, g, ops, ops_spec, plan, answers, initial, pred, pair
         for o, snap in zip(g['shared'], initial):
             pass
     ctx.sample('schedule', lambda: dict(w, results=[render(r)[:120] for r in results]), limit=4)
+
+
+_FRESH_NAMES = {}
+
+
+def fresh_quiescent_names(name, ops_spec):
+    if name not in _FRESH_NAMES:
+        g, _ = build(name)
+        for how, expr in ops_spec:
+            outcome(make_op(g, how, expr))
+        _FRESH_NAMES[name] = [sorted(w_fault._own_attrs(o)) for o in g['shared']]
+    return _FRESH_NAMES[name]
 
 
 def classify_by_window(g, initial, plan, ops, default):
@@ -552,10 +638,15 @@ def stress(ctx, name, seconds, nthreads=8):
 
 
 def run(ctx):
+    import gc
     names = sorted(SCENARIOS)
     try:
         for name in names:
-            explore(ctx, name, ctx.tier)
+            try:
+                explore(ctx, name, ctx.tier)
+            finally:
+                gc.enable()
+                gc.collect()
     finally:
         SCHED.uninstall()
     pairs = ctx.extra.pop('_pairs', set())
@@ -579,9 +670,16 @@ def replay(ctx, rec):
         for op in ops:
             outcome(op)
         initial = shared_snapshot(g)
-        answers, counts, windows = solo_profile(g, ops_spec, initial)
+        if is_fresh(name):
+            answers, counts, windows = solo_profile_fresh(name, ops_spec)
+        else:
+            answers, counts, windows = solo_profile(g, ops_spec, initial)
         pred = predicted_wrong_answers(g, ops_spec)
         plan = {tuple(k): v for k, v in rec['plan']}
+        if is_fresh(name):
+            g, _ = build(name)
+            ops = [make_op(g, how, expr) for how, expr in ops_spec]
+            initial = shared_snapshot(g)
         run_schedule(ctx, name, g, ops, ops_spec, plan, answers, initial, pred, set(), replaying=True)
     finally:
         SCHED.uninstall()
